@@ -1,6 +1,7 @@
 //! Probes built on kira's public traits: a backend that owns the renderer, programmable sounds,
 //! effects, modulators and decoders that log what the mixer does to them.
 
+pub mod agent;
 pub mod clocksched;
 pub mod ressched;
 pub mod decoder;
